@@ -188,10 +188,34 @@ class W2World(World):
 
     def end_step(self):
         if self.pending:
+            # Two open C07 findings (derived port / link names collide) describe a state that is otherwise a perfectly
+            # usable model; checks of OTHER properties keep exploring from it instead of ending the run there (the
+            # C07 check itself reports it as before). Only findings marked continue_in_other_checks qualify.
+            keep = []
+            for v in self.pending:
+                fid = self.tolerated(v) if v.prop != self.prop else None
+                if fid:
+                    self.stats.inc('foreign_known_tolerated.%s' % fid)
+                else:
+                    keep.append(v)
+            self.pending = keep
+        if self.pending:
             own = [v for v in self.pending if v.prop == self.prop]
             v = own[0] if own else self.pending[0]
             self.pending = []
             raise v
+
+    _TOL = None
+
+    def tolerated(self, v):
+        if W2World._TOL is None:
+            from . import kernel
+            W2World._TOL = [f for f in kernel.load_known_findings()
+                            if f.get('status') == 'open' and f.get('continue_in_other_checks')]
+        for f in W2World._TOL:
+            if f['property'] == v.prop and all(v.signature.get(k) == x for k, x in f['signature'].items()):
+                return f['id']
+        return None
 
     def state(self):
         return graph_state(self.imp, self.gid())
